@@ -561,14 +561,22 @@ def case_batch(ctx, case):
         valid, touched = {}, set()
         for j, (fn, nm, nid) in enumerate(names):
             if j in bad:
-                touched.add(fn)
                 how = case['how'][j % len(case['how'])]
                 if fmt in ('pre_skel', 'pre_mesh'):
                     data = corrupt_bytes(r, content[fn], how)
                 else:
-                    data = corrupt_bytes(r, content[fn], 'garbage' if how == 'aligned' else how)
-                (fdir / fn).write_bytes(data)
-                content[fn] = data
+                    # text / container formats have no intrinsic notion of truncation: a file counts as corrupt only
+                    # when the independent decoder rejects it; otherwise it is left untouched
+                    data = content[fn]
+                    for _ in range(6):
+                        cand = corrupt_bytes(r, content[fn], 'garbage' if how == 'aligned' else how)
+                        if not independent_ok(fmt, cand):
+                            data = cand
+                            break
+                if data != content[fn]:
+                    touched.add(fn)
+                    (fdir / fn).write_bytes(data)
+                    content[fn] = data
             if fmt == 'pre_skel':
                 valid[fn] = ctx.ask(f'c14.dec_skel  | {content[fn].hex()}') != 'NONE'
             elif fmt == 'pre_mesh':
@@ -581,9 +589,20 @@ def case_batch(ctx, case):
         else:
             (fdir / 'README.md').write_text('not a neuron')
         # container + listing order
+        extra_kw = {}
         if container == 'dir':
             src = str(fdir)
             listing = [p.name for p in fdir.glob('*') if p.name in content]
+        elif container == 'dir_sub':
+            # half of the files live in a sub-folder; include_subdirs decides whether they are read
+            sub = fdir / 'deeper'
+            sub.mkdir()
+            for fn, _, _ in names[len(names) // 2:]:
+                shutil.move(str(fdir / fn), str(sub / fn))
+            inc = bool(case['seed'] % 2)
+            extra_kw = dict(include_subdirs=inc)
+            src = str(fdir)
+            listing = [p.name for p in fdir.glob(os.path.join('**', '*') if inc else '*') if p.is_file() and p.name in content]
         elif container == 'list':
             order = [fn for fn, _, _ in names]
             r.shuffle(order)
@@ -599,7 +618,7 @@ def case_batch(ctx, case):
                     z.write(str(fdir / fn), arcname=fn)
             listing = order
         fmt_str = ('{name}_{id:int}' if pattern == 'name_id' else '{id:int}') + ext
-        kw = dict(errors=errors, parallel=parallel, fmt=fmt_str)
+        kw = dict(errors=errors, parallel=parallel, fmt=fmt_str, **extra_kw)
 
         def call():
             if fmt == 'pre_skel':
@@ -611,7 +630,7 @@ def case_batch(ctx, case):
             return navis.read_mesh(src, **kw)
         st, res = outcome(call)
         flags = [valid[fn] for fn in listing]
-        kind = 'zip' if container == 'zip' else (f'par:{max(1, (len(listing) + 1) // 2)}' if parallel else 'dir')
+        kind = 'zip' if container == 'zip' else (f'par:{max(1, (len(listing) + 1) // 2)}' if parallel and listing else 'dir')
         model = ctx.ask(f"c14.batch {errors} {kind} {','.join('1' if x else '0' for x in flags)}")
         info_by_fn = {fn: (nm, nid) for fn, nm, nid in names}
         if st == 'raise':
@@ -667,7 +686,8 @@ def case_batch(ctx, case):
         if st == 'ok' and case.get('twice', True):
             st2, res2 = outcome(call)
             ctx.oracle(st2 == 'ok' and [getattr(x, 'id', None) for x in res2] == [getattr(x, 'id', None) for x in res],
-                       'two reads of the same container return different orders', case)
+                       'two reads of the same container return different orders', case,
+                       signature=sig if sig == 'MeshReader.format_output/None-not-filtered' else None)
 
 
 def _navis_accepts(fmt, data):
@@ -720,6 +740,18 @@ def case_nrrd_vox(ctx, case):
         ctx.oracle(got == tuple(float(m) for m in mags) and str(res.units_xyz.units) == uname,
                    f'navis NRRD round trip: units {res.units_xyz} != written {mags} {uname}', case)
         ctx.oracle(res.id == vx.id, f'id parsed from file name {res.id!r} != {vx.id!r}', case)
+        # image -> Dotprops conversion: one point per non-zero voxel, in physical units, units = 1 <unit>
+        nz = np.argwhere(want > 0)
+        if len(nz) >= 5:
+            st, dp = outcome(lambda: navis.read_nrrd(str(fn), output='dotprops', k=3))
+            if st == 'raise':
+                ctx.oracle(False, f"read_nrrd(output='dotprops') on a voxel file raises {dp}", case)
+            else:
+                exp = sorted(map(tuple, (nz * np.asarray(mags, dtype=float)).tolist()))
+                gotp = sorted(map(tuple, np.asarray(dp.points, dtype=float).tolist()))
+                um = tuple(float(v) for v in np.asarray(dp.units_xyz.magnitude).reshape(-1))
+                ctx.oracle(gotp == exp and um == (1.0, 1.0, 1.0) and str(dp.units_xyz.units) == uname,
+                           f'voxels -> Dotprops: points are not voxel index × voxel size {mags} in units 1 {uname} (units {dp.units})', case)
 
 
 def case_nrrd_dp(ctx, case):
@@ -748,13 +780,11 @@ def case_nrrd_dp(ctx, case):
         # navis reader, as documented (k comes from the header)
         st, res = outcome(lambda: navis.read_nrrd(str(fn), output='dotprops'))
         if st == 'raise':
-            ctx.oracle(False, f"read_nrrd(output='dotprops') fails on the file write_nrrd produced: "
-                              f"{type(res.__cause__).__name__ if res.__cause__ else type(res).__name__}: {str(res.__cause__ or res)[:100]}",
-                       case, signature='read_nrrd/dotprops/header-k-is-str')
-            st, res = outcome(lambda: navis.read_nrrd(str(fn), output='dotprops', k=int(dp.k)))
-            if st == 'raise':
-                ctx.oracle(False, f'read_nrrd(dotprops, k=…) raises {res}', case)
-                return
+            ctx.oracle(False, f"read_nrrd(output='dotprops') fails on the file write_nrrd produced: {type(res).__name__}: {str(res)[:100]}", case)
+            return
+        ctx.oracle(isinstance(res.k, (int, np.integer)) and int(res.k) == int(dp.k),
+                   f'NRRD round trip of Dotprops: k = {res.k!r} ({type(res.k).__name__}) instead of {dp.k!r}', case,
+                   signature='read_nrrd/dotprops/header-k-is-str')
         ctx.oracle(np.array_equal(res.points, dp.points) and np.allclose(res.vect, dp.vect), 'navis NRRD round trip of Dotprops: points/vect differ', case)
         model = ctx.ask(f'c14.nrrd dotprops {int(mags[0] * 4)} {int(mags[1] * 4)} {int(mags[2] * 4)}').split()[1]
         got = tuple(float(v) for v in np.asarray(res.units_xyz.magnitude).reshape(-1))
@@ -1057,63 +1087,75 @@ def gen_cases(ctx):
     yield 'trunc_mesh', dict(nv=4, nf=3, seed=7)
     yield 'bytesio', dict(cut=7)
     yield 'batch', dict(fmt='pre_skel', k=3, container='dir', errors='raise', bad=[1], how=['aligned'], seed=8)
+    yield 'skel', dict(n=3, ids='seq1', radius=1, seed=9, units=9)
+    if h5py:
+        yield 'h5', dict(serialized=False, raw=True, kinds=['skel'], aslist=False, units=1, n=4, connectors=True, seed=10)
+        yield 'h5', dict(serialized=False, raw=True, kinds=['skel', 'mesh', 'dp'], aslist=True, units=1, n=4, connectors=False, seed=11)
+    if nrrd:
+        yield 'nrrd_dp', dict(n=7, k=3, units=1, seed=12)
+        yield 'nrrd_dp', dict(n=7, k=3, units=3, seed=13)
+    if trimesh:
+        yield 'batch', dict(fmt='obj', k=3, container='dir', errors='ignore', bad=[1], how=['garbage'], seed=14)
+    yield 'batch', dict(fmt='pre_skel', k=4, container='zip', errors='log', bad=[0, 2], how=['misaligned'], pattern='name_id', seed=15)
+    yield 'batch', dict(fmt='pre_mesh', k=4, container='dir_sub', errors='ignore', bad=[3], how=['garbage'], pattern='name_id', seed=16)
+    yield 'batch', dict(fmt='pre_skel', k=4, container='list', errors='log', bad=[1], how=['empty'], parallel=2, seed=17)
     # --- precomputed skeletons
-    for _ in range(ctx.budget(60, 600)):
+    for _ in range(ctx.budget(240, 600)):
         n = r.choice([1, 2, 3, 5, 8, 13, 21, 40]) if ctx.quick() else r.choice([1, 2, 3, 5, 8, 21, 40, 120, 400])
         yield 'skel', dict(n=n, ids=r.choice(ID_CLASSES), radius=r.randint(0, 1), roots=r.choice([1, 1, 2, 4]),
                            shuffle=r.random() < 0.6, units=r.randrange(len(UNITS)) if r.random() < 0.5 else r.choice([0, 1, 2, 3]),
                            nid=r.choice([42, 7, 123456789]), seed=S())
-    for _ in range(ctx.budget(3, 20)):
+    for _ in range(ctx.budget(9, 20)):
         yield 'skel', dict(n=r.randint(3, 9), ids='huge', radius=r.randint(0, 1), seed=S())
-    for _ in range(ctx.budget(40, 400)):
+    for _ in range(ctx.budget(160, 400)):
         na = r.choice([0, 1, 1, 2, 2, 3, 4])
         yield 'l2n', dict(n=r.choice([1, 2, 3, 6, 12, 30]), roots=r.choice([1, 2]), attrs=r.sample(range(len(ATTR_POOL)), na),
                           how=r.choice(['infofile', 'dict', 'bytes']), seed=S())
     # --- meshes
-    for _ in range(ctx.budget(25, 250)):
+    for _ in range(ctx.budget(100, 250)):
         yield 'mesh', dict(nv=r.randint(3, 14 if ctx.quick() else 60), nf=r.randint(1, 12 if ctx.quick() else 80),
                            manifest=r.random() < 0.3, nid=r.choice([7, 99]), seed=S())
     # --- truncation at every offset
-    for _ in range(ctx.budget(3, 25)):
+    for _ in range(ctx.budget(9, 25)):
         yield 'trunc_skel', dict(n=r.randint(1, 5), radius=r.randint(0, 1), seed=S())
-    for _ in range(ctx.budget(2, 15)):
+    for _ in range(ctx.budget(6, 15)):
         yield 'trunc_mesh', dict(nv=r.randint(3, 5), nf=r.randint(1, 3), seed=S())
     # --- batch reads
     fmts = ['pre_skel', 'pre_skel', 'pre_mesh'] + (['nrrd'] if nrrd else []) + (['obj', 'ply'] if trimesh else [])
-    for _ in range(ctx.budget(70, 700)):
+    for _ in range(ctx.budget(280, 700)):
         k = r.randint(2, 6)
         nb = r.choice([0, 1, 1, 1, 2, k])
-        yield 'batch', dict(fmt=r.choice(fmts), k=k, container=r.choice(['dir', 'list', 'zip']),
+        yield 'batch', dict(fmt=r.choice(fmts), k=k, container=r.choice(['dir', 'dir', 'dir_sub', 'list', 'zip']),
                             errors=r.choice(['raise', 'log', 'ignore']), bad=sorted(r.sample(range(k), min(nb, k))),
                             how=[r.choice(['misaligned', 'garbage', 'empty', 'misaligned', 'aligned'])],
                             pattern=r.choice(['id', 'name_id']),
-                            parallel=(2 if (not ctx.quick() and r.random() < 0.15) else False), seed=S())
+                            parallel=(2 if r.random() < (0.02 if ctx.quick() else 0.1) else False), seed=S())
     # --- NRRD
     if nrrd:
-        for _ in range(ctx.budget(30, 300)):
+        for _ in range(ctx.budget(120, 300)):
             yield 'nrrd_vox', dict(shape=[r.randint(1, 6), r.randint(1, 6), r.randint(1, 6)], dtype=r.choice(DTYPES),
                                    units=r.randrange(len(VOX_UNITS)), level=r.choice([1, 3, 9]), seed=S())
-        for _ in range(ctx.budget(10, 80)):
+        for _ in range(ctx.budget(40, 80)):
             yield 'nrrd_dp', dict(n=r.randint(5, 12), k=r.choice([2, 3, 5]), units=r.randrange(len(VOX_UNITS)), seed=S())
     # --- JSON
-    for _ in range(ctx.budget(20, 200)):
+    for _ in range(ctx.budget(80, 200)):
         yield 'json', dict(k=r.randint(1, 3), n=r.choice([3, 12, 30]), tofile=r.random() < 0.5, single=r.random() < 0.5, seed=S())
     # --- HDF5
     if h5py:
-        for _ in range(ctx.budget(25, 250)):
+        for _ in range(ctx.budget(100, 250)):
             ser, raw = r.choice([(True, False), (False, True), (True, True)])
             nk = r.choice([1, 1, 2, 3])
             yield 'h5', dict(serialized=ser, raw=raw, kinds=[r.choice(['skel', 'mesh', 'dp']) for _ in range(nk)],
                              aslist=r.random() < 0.4, units=r.randrange(len(H5_UNITS)), n=r.choice([3, 10]),
                              connectors=r.random() < 0.4, seed=S())
-        for _ in range(ctx.budget(3, 20)):
+        for _ in range(ctx.budget(9, 20)):
             k = r.randint(2, 4)
             yield 'h5_errors', dict(k=k, bad=r.randrange(k), seed=S())
     # --- mesh files
     if trimesh:
-        for _ in range(ctx.budget(20, 200)):
+        for _ in range(ctx.budget(80, 200)):
             yield 'meshfile', dict(ext=r.choice(['obj', 'ply', 'stl', 'off', 'glb']), nv=r.randint(3, 12), nf=r.randint(1, 10), seed=S())
-    for _ in range(ctx.budget(40, 400)):
+    for _ in range(ctx.budget(160, 400)):
         yield 'fmt', gen_fmt_cases(r)
 
 
